@@ -92,3 +92,9 @@ pub(crate) fn mk_log() -> Log {
 		sync: false,
 	}
 }
+
+pub(crate) fn mk_reader_with_id(record_id: u64) -> LogReader<'static> {
+	let mut r = mk_reader();
+	r.record_id = record_id;
+	r
+}
